@@ -371,7 +371,7 @@ def wMsg (n : Int) : Msg :=
   { creator := 0, feederID := 1, basedBlock := 2, nonce := n,
     prices := [{ sourceID := 1, prices := [{ price := 2, decimal := 0, ts := 100, tsKind := 0, detID := "9" }] }] }
 
-def wTx : Tx := { size := 300, pubkeyMatches := true, sigValid := true, msgs := [wMsg 1, wMsg 2] }
+def wTx : Tx := { size := 300, infos := [{ pubkeyMatches := true, sigValid := true }], msgs := [wMsg 1, wMsg 2] }
 
 theorem w_out : (deliverTx wState wTx).2 = .msg 1 (.invalidMsg "round") := by decide
 theorem w_next : ((deliverTx wState wTx).1.store.token 1).nextRoundID = 2 := by decide
